@@ -62,7 +62,7 @@ func (e *Engine) verifyFunc(f *ssa.Function, ct *Contract) *FnVC {
 		in.letVals[l[0]] = v
 	}
 	for _, r := range ct.Requires {
-		fv.assume("true", ce.evalSpec(r.Expr))
+		fv.assume("true", ce.evalAssume("true", r.Expr))
 		// vacuity guard: the precondition must be satisfiable
 	}
 	if len(ct.Requires) > 0 {
@@ -125,7 +125,7 @@ func (fv *FnVC) finishReturn(in *inst, r retInfo, suffix string) {
 		ce.vars["result"] = vs[0]
 	}
 	for _, en := range ct.Ensures {
-		t := ce.evalSpec(en.Expr)
+		t := ce.evalGoal(en.Expr)
 		fv.obligeClause(ce, funcKey(f)+"#"+en.Name+suffix, "post", in.propsFor(en), st.reach, t, en.Expr, pos)
 	}
 	if ce.err != nil {
@@ -164,7 +164,7 @@ func (fv *FnVC) finishReturn(in *inst, r retInfo, suffix string) {
 			ce2.vars[l[0]] = ce2.eval(l[1])
 		}
 		for _, en := range im.ct.Ensures {
-			t := ce2.evalSpec(en.Expr)
+			t := ce2.evalGoal(en.Expr)
 			props := en.Props
 			if len(props) == 0 {
 				props = im.ct.Props
